@@ -10,7 +10,7 @@ from ..core import Ctx
 from ..flow import AV
 from ..model import AnalysisError, body_stmts, dotted, kwarg, norm, walk_no_nested
 from .c03 import rule_fast_cache
-from .common import assigned_value, bound_args, enclosing, key_function, pnorm, prog, resolve_local, stores_to
+from .common import assigned_value, bound_args, check_alignment_record, check_unitary_record, enclosing, key_function, pnorm, prog, resolve_local, stores_to
 
 FAST = "Continuum.get_fast_alignment"
 
@@ -272,6 +272,8 @@ def run(ctx: Ctx):
     ctx.assumptions += ["C01: the best alignment of a non-empty window is a non-empty partition whose unitary alignments hold a real unit",
                         "C13: Unit order is strict, so Continuum.remove finds the unit"]
     rule_progress(ctx)
+    check_alignment_record(ctx, "R-C10-2")        # the kept unitary alignments are handed to Alignment(...): it keeps them all
+    check_unitary_record(ctx, "R-C10-2", nb_units=False)
     rule_fast_cache(ctx)
     # re-label the C03 rule ids of the shared function
     for o in ctx.obls:
